@@ -283,9 +283,17 @@ func init() {
 		e.Yield()
 		return nil
 	})
+	// sync.Pool reuses whenever it can (LIFO): an object handed back with Put is what the next Get
+	// returns. The real pool may or may not reuse; assuming it does is the behaviour under which
+	// use-after-Put and stale-content bugs show.
 	reg("(*sync.Pool).Get", func(e *Engine, fr *frame, a []Value) Value {
 		p := a[0].(Ptr)
 		pool := p.B.E[p.I].(*Backing)
+		if st := e.pools[pool]; len(st) > 0 {
+			v := st[len(st)-1]
+			e.pools[pool] = st[:len(st)-1]
+			return v
+		}
 		// field "New" is the last field of sync.Pool
 		newf := pool.E[len(pool.E)-1]
 		if _, isNil := newf.(nilFunc); isNil {
@@ -293,7 +301,17 @@ func init() {
 		}
 		return e.call(fr, fr.th, newf, nil, 0)
 	})
-	reg("(*sync.Pool).Put", nop)
+	reg("(*sync.Pool).Put", func(e *Engine, fr *frame, a []Value) Value {
+		p := a[0].(Ptr)
+		pool := p.B.E[p.I].(*Backing)
+		if x, ok := a[1].(Iface); ok && x.T != nil {
+			if e.pools == nil {
+				e.pools = map[*Backing][]Value{}
+			}
+			e.pools[pool] = append(e.pools[pool], x)
+		}
+		return nil
+	})
 	reg("(*sync.Cond).Wait (*sync.Cond).Signal (*sync.Cond).Broadcast", func(e *Engine, fr *frame, a []Value) Value {
 		panic(e.unsupported("sync.Cond"))
 	})
